@@ -103,6 +103,13 @@ NpFails(r, net, par, opts, x, u, d) ==
                                 /\ (og.kind # "mainstream" /\ xc.rho[OLink(net, q)][1] = lk.rho_max) => RLe(RAbs(qf), slack)
                                 /\ RLe(RNeg(TolS(ScaleW(net, par, xc, u, d, q))), yo.w[q]) )}
                   ELSE {}
+           \* C05 on the NumPy engine: the flows the elements report when asked after the step are the flows of the step
+           ofl == o.flows
+           FlowSlots == {<<"q", l, i>> : l \in Links(net), i \in 1..12} \cup {<<"qo", q, 1>> : q \in DOMAIN net.origins}
+           ObsFlow(s) == IF s[1] = "q" THEN P(ofl.q[s[2]][s[3]]) ELSE P(ofl.qo[s[2]])
+           flw == IF ~ofl.has THEN {}
+                  ELSE {s \in {s \in FlowSlots : s[1] = "qo" \/ s[3] \in Segs(net, s[2])} :
+                          ~CloseOrUndef(Expected(y, fl, s), ObsFlow(s), Tol, Zero)}
            \* C12: stepping again from the same (caller-owned) values gives identical next states; nothing supplied was modified
            rep == IF o.pure.has
                   THEN {s \in StateSlots(net) : ~(RIsNaN(ObsY(net, o.y, s)) /\ RIsNaN(ObsY(net, o.pure.y2, s))) /\ ObsY(net, o.y, s) # ObsY(net, o.pure.y2, s)}
@@ -111,6 +118,8 @@ NpFails(r, net, par, opts, x, u, d) ==
                        \cup {s \in StateSlots(net) : ~(RIsNaN(ObsY(net, o.pure.y4, s)) /\ RIsNaN(ObsY(net, o.pure.y5, s))) /\ ObsY(net, o.pure.y4, s) # ObsY(net, o.pure.y5, s)}
                   ELSE {}
        IN {<<"np.y", s>> : s \in mism}
+          \cup {<<"np.flow", s>> : s \in flw}
+          \cup (IF ~ofl.has /\ ofl.err # "" THEN {<<"np.flow_ok", ofl.err>>} ELSE {})
           \cup {<<"np.repeat", s>> : s \in rep}
           \cup (IF o.pure.has THEN {<<"np.heap", o.pure.changed[k]>> : k \in DOMAIN o.pure.changed} ELSE {})
           \cup {<<"np.bounds", q>> : q \in bnd}
